@@ -94,6 +94,33 @@ class Ctx:
                         self.broken.append("axiom outside the allowed list under %s: %s" % (pf, ax))
             if not bad:
                 self.discharged += ["%s:%s" % (pf, n) for n in names]
+            if self.tier == "thorough" and not self.replay_mode:
+                self._coqchk(pf)
+
+    def _coqchk(self, pf):
+        """independent re-check of the compiled property file and everything it depends on (thorough tier)"""
+        import subprocess
+        mod = "UV." + pf[:-2].replace("/", ".")
+        self.obligations.append("coqchk:" + mod)
+        try:
+            p = subprocess.run(["coqchk", "-o", "-silent", "-R", coqrun.COQ, "UV", mod], capture_output=True, text=True, timeout=2400, cwd=coqrun.COQ)
+        except subprocess.TimeoutExpired:
+            self.notes.append("coqchk on %s timed out (not counted as discharged)" % mod); return
+        self.checker_cmds.append("coqchk -o -silent -R coq UV " + mod)
+        out = p.stdout + p.stderr
+        axs, inblock = [], False
+        for line in out.splitlines():
+            if line.startswith("* Axioms:"): inblock = True; continue
+            if inblock:
+                if line.startswith("*") or not line.strip(): inblock = False if line.startswith("*") else inblock; 
+                if line.strip() and not line.startswith("*"): axs.append(line.strip())
+        self.extra.setdefault("coqchk_axioms", {})[mod] = axs
+        unsafe = [l for l in out.splitlines() if ("type-in-type" in l or "unsafe (co)fixpoints" in l or "positivity is assumed" in l) and "<none>" not in l]
+        badax = [a for a in axs if a.split(".")[-1] not in ("functional_extensionality_dep", "sig_not_dec", "sig_forall_dec", "classic") and not a.startswith(("Coq.Floats.", "Coq.Numbers.Cyclic.Int63.", "Coq.Numbers.Cyclic.Abstract"))]
+        if p.returncode != 0 or unsafe or badax:
+            self.broken.append("coqchk on %s: rc=%d unsafe=%s unexpected axioms=%s" % (mod, p.returncode, unsafe, badax))
+        else:
+            self.discharged.append("coqchk:" + mod)
 
     @staticmethod
     def _primitive(ax):
